@@ -15,19 +15,43 @@ TRUSTED = [
 ]
 ASSUMPTIONS = [
     'Stage 1 schemas (wf_schema): single integer primary key, int/str attributes, unique scalars, many-to-one / one-to-many with Pony\'s default cascade_delete; '
-    'one-to-one, many-to-many, composite keys, inheritance are covered by the implementation-side oracle of the fuzzer only when added to the generator (not yet)',
+    'one-to-one and many-to-many relationships and composite keys (Stage 2) are covered by the implementation-side oracles only (half of the search histories use them; the Coq model and the '
+    'correspondence do not); composite primary keys and inheritance are not generated',
     'theorems hold for histories that reach no dirty site of the model (s_dirty = 0): sites 1-8 are known findings / legitimate partial failures of the code, '
     'sites 20-28 are assertion sites believed unreachable (a hit in the correspondence run is reported as a broken tie)',
     'steps the model declines (a deleted object used as a reference value, Entity.set mixing reference and collection arguments, insertion order that depends on '
     'Python set iteration) end the comparison of that history',
 ]
-RULE = ('seeded generator of (schema, op list): 1-3 entities, 1-3 scalar attributes each, 1-3 relationships, 10-40 ops, ~85 % valid ops; '
+RULE = ('seeded generator of (schema, op list): 1-3 entities, 1-3 scalar attributes each, 1-3 relationships (search: also many-to-many, one-to-one, composite_key), 10-40 ops, ~85 % valid ops; '
         'non-trivial = at least three successful mutating ops; distinct = distinct canonical (schema, ops)')
 
 
 def correspondence(ctx): return chk.correspondence(ctx, ID)
-def search(ctx, deep): return chk.search(ctx, deep, ID)
-def replay(ctx, data): return chk.replay(ctx, data, ID)
+
+
+def _census(cases=None):
+    """tools/c12_census.py: both ends agree (public API, before / after flush, after reload) for the relationship shapes the history fuzzer
+    does not generate: composite primary keys containing relationships, self references, symmetric many-to-many / one-to-one, subclasses."""
+    import vlib
+    out = vlib.run_impl('c12_census.py', {'cases': cases}, timeout=600)['results']
+    return [vlib.Failure('c12-census:' + r['case'], 'both ends disagree (%s): %s' % (r['case'], r['detail'][:600]), {'census_case': r['case']})
+            for r in out if not r['ok']], len(out)
+
+
+def search(ctx, deep):
+    s = chk.search(ctx, deep, ID)
+    fails, n = _census()
+    s.failures = fails + list(s.failures)
+    s.evaluations += n
+    s.distribution['relationship_census_cases'] = n
+    return s
+
+
+def replay(ctx, data):
+    if 'census_case' in data:
+        fails, _ = _census([data['census_case']])
+        return fails[0] if fails else None
+    return chk.replay(ctx, data, ID)
 
 
 LEVEL_TEXT = ('Machine-checked proof (Coq 8.16.1) over the executable session model, Stage 1 schema space (many-to-one references with their one-to-many '
@@ -37,7 +61,8 @@ LEVEL_TEXT = ('Machine-checked proof (Coq 8.16.1) over the executable session mo
               'creation with reference and collection arguments, Entity.set, cascade and unlinking delete, and loading rows (db_set / db_reverse_add) incl. seeds and '
               'partially loaded collections. One defect site is refuted by a witness (failed creation leaves a one-sided link); two further known findings lie in steps the '
               'model declines (Entity.set mixing reference and collection arguments; creation referring to a deleted object). One-to-one, many-to-many and symmetric '
-              'relationships (Stage 2) are outside the theorems. Tie: as for C11.')
+              'relationships (Stage 2) are outside the theorems; they are covered on the implementation side only: many-to-many and one-to-one by the oracles of the history search, composite primary keys containing '
+              'relationships, self references, symmetric relationships and subclasses by a fixed relationship census (tools/c12_census.py). Tie: as for C11.')
 LEVEL_NOTE = ('Trusted: Coq kernel + vm_compute; the hand-written model (tied by differential runs only); the fuzzer harness; the SQLite reference semantics. '
               'The invariant speaks about the loaded view of collections (SetData items); agreement of a partially loaded collection with the database rows is part of C09/C10.')
 TECHNIQUE = 'Coq inductive invariant over an executable session model (all histories, fold_left); vm_compute correspondence with real Pony+SQLite on generated histories; property-oracle search with ddmin shrinking'
